@@ -34,6 +34,14 @@ LEVEL_TEXT = (
     "oriented boundary); (R5) exporting stores neither into the mesh nor "
     "into the caller's dictionaries. meshio's own formats and numerical "
     "equality after I/O are not decided.")
+LEVEL_TEXT += (
+    " Added after the seeding phase: (R3) the co-indexing types carry the "
+    "traversal order (C order of the mask or of its transpose) and the "
+    "meaning of each nonzero() component; the encoder finds the slot of "
+    "tagged facet j by comparing column j with b[j] (not by membership) "
+    "in the owner f2t[ori, b] and scatters to (slot, owner); type tables "
+    "and node permutations are decided by evaluating the module "
+    "constants.")
 LEVEL_NOTE = ("Trusted: meshio reads what it writes; numpy savez/load, "
               "nonzero/sort/argsort semantics.")
 EXPLANATION = "Symmetry / typing / effect rules on the I/O code."
